@@ -311,13 +311,17 @@ func (client *client) writeLoop() {
 		case <-client.close:
 			// setError queues the DISCONNECT and closes client.close right after it: both cases of this
 			// select are then ready and one is picked at random. Flush the queue so the DISCONNECT is sent.
+			// The same holds for the failing CONNACK of a refused CONNECT (sendErrConnack, then setError).
 			for {
 				select {
 				case packet := <-client.out:
-					if _, ok := packet.(*packets.Disconnect); ok {
+					switch packet.(type) {
+					case *packets.Disconnect:
 						_ = client.writePacket(packet)
 						_ = client.rwc.Close()
 						return
+					case *packets.Connack:
+						_ = client.writePacket(packet)
 					}
 				default:
 					return
